@@ -2,7 +2,7 @@ from common import LEAN_TB
 
 CHECK = {
     "title": "Untrusted input never crashes or hangs the tool",
-    "modules": ["Apko.Proofs.C15"],
+    "modules": ["Apko.Proofs.C15", "Apko.Proofs.C15Readers", "Apko.Proofs.C15Regex", "Apko.Proofs.C15Stream"],
     "suites": [("robust", 60, 3000)],
     "budget_quick": 170,
     "fact_prefixes": ["installed.go", "apkindex.go"],
